@@ -424,7 +424,7 @@ func (e *Exec) collectInputs(fn *ssa.Function, args []Val, binds []Val) {
 			if w, _, ok := intInfo(u.Elem()); ok {
 				arr := e.heapGet(e.entry, elemKey(u.Elem(), 0), arrSort(sRef, arrSort(sBV64, bvSort(w))))
 				for i := 0; i < replayBytes; i++ {
-					add(fmt.Sprintf("%s[%d]", name, i), sel(sel(arr, v.sBase()), app("bvadd", v.sOff(), bvLitI(64, int64(i)))))
+					add(fmt.Sprintf("%s[%d]", name, i), sel(sel(arr, v.sBase()), bvAdd(v.sOff(), bvLitI(64, int64(i)))))
 				}
 			}
 		case *types.Struct:
